@@ -4,20 +4,228 @@ Require Import PyBase GenDisk DiskFacts Disk ThomsonDos PyFacts DiskDefs.
 Import ListNotations.
 Open Scope Z_scope.
 
-(* TOP: kind, ASCII flag and stored extension chosen by the tool for (name, extension, extension
-   with option) are those of the README table written in Spec.doc_disk_kind: AUTO.BAT and BAS ->
-   BASIC program, binary; BAS,a -> BASIC program, ASCII, stored as BAS; BIN -> machine-language
-   module; TXT -> text, ASCII; anything else -> BASIC data, binary *)
-Theorem processors_match_documentation : forall (name ext ext_opt : list Z),
+(* ---------------- helpers: list equality test, separators ---------------- *)
+Lemma zeqb_list_iff a : forall b, zeqb_list a b = true <-> a = b.
+Proof.
+  induction a as [|x a IH]; intros [|y b]; cbn [zeqb_list]; try easy.
+  rewrite andb_true_iff, IH, Z.eqb_eq. split.
+  - intros [-> ->]. reflexivity.
+  - intros H. injection H. auto.
+Qed.
+
+Lemma zeqb_list_false a b : a <> b -> zeqb_list a b = false.
+Proof.
+  intros H. destruct (zeqb_list a b) eqn:E; [|reflexivity].
+  apply zeqb_list_iff in E. contradiction.
+Qed.
+
+Lemma existsb_mid (c : Z) a b : existsb (Z.eqb c) (a ++ c :: b) = true.
+Proof. rewrite existsb_app. cbn [existsb]. rewrite Z.eqb_refl. cbn [orb]. apply orb_true_r. Qed.
+
+(* a list is cut in one way only at its last separator *)
+Lemma split_at_last_sep (c : Z) : forall a a' b b',
+  existsb (Z.eqb c) b = false -> existsb (Z.eqb c) b' = false ->
+  a ++ c :: b = a' ++ c :: b' -> a = a' /\ b = b'.
+Proof.
+  induction a as [|x a IH]; intros [|y a'] b b' Hb Hb' H; cbn [app] in H.
+  - injection H as ->. auto.
+  - injection H as _ H. subst b. rewrite existsb_mid in Hb. discriminate.
+  - injection H as _ H. subst b'. rewrite existsb_mid in Hb'. discriminate.
+  - injection H as -> H. destruct (IH _ _ _ Hb Hb' H) as [-> ->]. auto.
+Qed.
+
+Lemma str_dot : str "." = [46].
+Proof. reflexivity. Qed.
+
+Lemma dotted_neq name ext k :
+  existsb (Z.eqb 46) k = false -> zeqb_list (name ++ 46 :: ext) k = false.
+Proof.
+  intros Hk. apply zeqb_list_false. intros <-. rewrite existsb_mid in Hk. discriminate.
+Qed.
+
+Lemma autobat_iff name ext : existsb (Z.eqb 46) ext = false ->
+  zeqb_list (name ++ 46 :: ext) [65;85;84;79;46;66;65;84]
+  = zeqb_list name [65;85;84;79] && zeqb_list ext [66;65;84].
+Proof.
+  intros He. destruct (zeqb_list name [65;85;84;79] && zeqb_list ext [66;65;84]) eqn:E.
+  - apply andb_true_iff in E. destruct E as [E1 E2].
+    apply zeqb_list_iff in E1. apply zeqb_list_iff in E2. subst. reflexivity.
+  - apply zeqb_list_false. intros H.
+    change [65;85;84;79;46;66;65;84] with ([65;85;84;79] ++ 46 :: [66;65;84]) in H.
+    apply split_at_last_sep in H; [|assumption|reflexivity].
+    destruct H as [-> ->]. vm_compute in E. discriminate.
+Qed.
+
+(* the README table holds as soon as the extension-with-option has no dot either (always the
+   case for what split_source produces: see split_source_ext_opt_no_dot below) *)
+Lemma processors_match_documentation_nodot : forall (name ext ext_opt : list Z),
   existsb (Z.eqb 46) ext = false ->
+  existsb (Z.eqb 46) ext_opt = false ->
   let '(forced, kind, dtype) := processor_of name ext ext_opt in
   let '(ext_doc, kind_doc, flag_doc) := doc_disk_kind name ext ext_opt in
   kind = kind_doc /\ data_to_byte dtype = flag_doc /\ (dtype = 0 \/ dtype = 1) /\ 0 <= kind < 4 /\
   match forced with Some x => x | None => ext end = ext_doc.
-Admitted.
+Proof.
+  intros name ext ext_opt He Ho.
+  unfold processor_of, doc_disk_kind. rewrite str_dot. cbn [app].
+  unfold inj_processors. cbn [lookup_proc].
+  rewrite !(dotted_neq name ext) by reflexivity.
+  rewrite (autobat_iff name ext He).
+  rewrite (zeqb_list_false ext_opt [65;85;84;79;46;66;65;84])
+    by (intros ->; vm_compute in Ho; discriminate).
+  destruct (zeqb_list name [65;85;84;79] && zeqb_list ext [66;65;84]).
+  { cbv - [Z.le Z.lt]. split; [reflexivity|split; [reflexivity|split; [lia|split; [lia|reflexivity]]]]. }
+  destruct (zeqb_list ext_opt [66;65;83]) eqn:E1.
+  { apply zeqb_list_iff in E1. subst ext_opt. cbv - [Z.le Z.lt].
+    split; [reflexivity|split; [reflexivity|split; [lia|split; [lia|reflexivity]]]]. }
+  destruct (zeqb_list ext_opt [66;65;83;44;65]) eqn:E2.
+  { apply zeqb_list_iff in E2. subst ext_opt. cbv - [Z.le Z.lt].
+    split; [reflexivity|split; [reflexivity|split; [lia|split; [lia|reflexivity]]]]. }
+  destruct (zeqb_list ext_opt [66;73;78]) eqn:E3.
+  { apply zeqb_list_iff in E3. subst ext_opt. cbv - [Z.le Z.lt].
+    split; [reflexivity|split; [reflexivity|split; [lia|split; [lia|reflexivity]]]]. }
+  destruct (zeqb_list ext_opt [84;88;84]) eqn:E4.
+  { apply zeqb_list_iff in E4. subst ext_opt. cbv - [Z.le Z.lt].
+    split; [reflexivity|split; [reflexivity|split; [lia|split; [lia|reflexivity]]]]. }
+  cbv - [Z.le Z.lt].
+  split; [reflexivity|split; [reflexivity|split; [lia|split; [lia|reflexivity]]]].
+Qed.
+
+(* SUSPECT: the TOP statement below is FALSE as worded: it puts no condition on ext_opt, and the
+   tool's table has a fifth key "AUTO.BAT" that is also looked up with ext_opt.  With name = "X",
+   ext = "Y", ext_opt = "AUTO.BAT": processor_of gives (None, 0, 0) (BASIC program) while
+   doc_disk_kind gives ("Y", 1, 0) (BASIC data).  Machine-checked refutation: *)
+Lemma processors_match_documentation_counterexample :
+  ~ (forall (name ext ext_opt : list Z),
+      existsb (Z.eqb 46) ext = false ->
+      let '(forced, kind, dtype) := processor_of name ext ext_opt in
+      let '(ext_doc, kind_doc, flag_doc) := doc_disk_kind name ext ext_opt in
+      kind = kind_doc /\ data_to_byte dtype = flag_doc /\ (dtype = 0 \/ dtype = 1) /\ 0 <= kind < 4 /\
+      match forced with Some x => x | None => ext end = ext_doc).
+Proof.
+  intros H. specialize (H [88] [89] [65;85;84;79;46;66;65;84] eq_refl).
+  vm_compute in H. destruct H as [H _]. discriminate.
+Qed.
+
+(* TOP: kind, ASCII flag and stored extension chosen by the tool for (name, extension, extension
+   with option) are those of the README table written in Spec.doc_disk_kind: AUTO.BAT and BAS ->
+   BASIC program, binary; BAS,a -> BASIC program, ASCII, stored as BAS; BIN -> machine-language
+   module; TXT -> text, ASCII; anything else -> BASIC data, binary *)
+(* the first wording of this theorem (no condition on ext_opt) was FALSE: see processors_match_documentation_counterexample below;
+   the corrected forms are processors_match_documentation_nodot and split_source_processors_match *)
+
+
+(* ---------------- helpers: last dot, base name ---------------- *)
+Lemma upper_char_dot x : (46 =? upper_char x) = (46 =? x).
+Proof. unfold upper_char. destruct ((97 <=? x) && (x <=? 122)) eqn:E; lia. Qed.
+
+Lemma existsb_upper l : existsb (Z.eqb 46) (upper_ascii l) = existsb (Z.eqb 46) l.
+Proof.
+  unfold upper_ascii. induction l as [|x l IH]; cbn [map existsb]; [reflexivity|].
+  rewrite upper_char_dot, IH. reflexivity.
+Qed.
+
+Lemma rfind_aux_spec c : forall l i acc j, rfind_aux c l i acc = Some j ->
+  (acc = Some j /\ existsb (Z.eqb c) l = false) \/
+  ((i <= j)%nat /\ (j < i + List.length l)%nat /\ existsb (Z.eqb c) (skipn (S (j - i)) l) = false).
+Proof.
+  induction l as [|x l IH]; intros i acc j H; cbn [rfind_aux] in H.
+  - left. split; auto.
+  - apply IH in H. destruct H as [[Ha Hl]|(H1 & H2 & H3)].
+    + destruct (x =? c) eqn:E.
+      * injection Ha as <-. right. split; [lia|]. split; [cbn [List.length]; lia|].
+        replace (i - i)%nat with 0%nat by lia. cbn [skipn]. exact Hl.
+      * left. split; [exact Ha|]. cbn [existsb]. rewrite Z.eqb_sym, E. exact Hl.
+    + right. split; [lia|]. split; [cbn [List.length]; lia|].
+      replace (S (j - i)) with (S (S (j - S i))) by lia. cbn [skipn]. exact H3.
+Qed.
+
+Lemma rfind_char_spec c l j : rfind_char c l = Some j ->
+  (j < List.length l)%nat /\ existsb (Z.eqb c) (skipn (S j) l) = false.
+Proof.
+  unfold rfind_char. intros H. apply rfind_aux_spec in H.
+  destruct H as [[H _]|(_ & H2 & H3)]; [discriminate|].
+  rewrite Nat.sub_0_r in H3. split; [lia|exact H3].
+Qed.
+
+Lemma rfind_aux_snoc c x : x <> c -> forall p i acc,
+  rfind_aux c (p ++ [x]) i acc = rfind_aux c p i acc.
+Proof.
+  intros Hx. induction p as [|y p IH]; intros i acc; cbn [app rfind_aux].
+  - destruct (x =? c) eqn:E; [lia|reflexivity].
+  - apply IH.
+Qed.
+
+Lemma basename_snoc2 p x y : x <> 47 -> y <> 47 -> basename (p ++ [x; y]) = basename p ++ [x; y].
+Proof.
+  intros Hx Hy. unfold basename, after_last_slash, rfind_char.
+  replace (p ++ [x; y]) with ((p ++ [x]) ++ [y]) by (rewrite <- app_assoc; reflexivity).
+  rewrite !rfind_aux_snoc by assumption. rewrite <- app_assoc. cbn [app].
+  destruct (rfind_aux 47 p 0 None) as [i|] eqn:E; [|reflexivity].
+  apply (rfind_char_spec 47 p i) in E. destruct E as [E _].
+  rewrite skipn_app. replace (S i - List.length p)%nat with 0%nat by lia. reflexivity.
+Qed.
+
+(* src ends with ",a" or ",A" *)
+Lemma ends_commaA src : zeqb_list (upper_ascii (last_n 2 src)) (str ",A") = true ->
+  exists x y, src = drop_last 2 src ++ [x; y] /\ x <> 47 /\ y <> 47.
+Proof.
+  intros H. apply zeqb_list_iff in H. unfold last_n in H. unfold drop_last.
+  pose proof (firstn_skipn (List.length src - 2) src) as Hs.
+  destruct (skipn (List.length src - 2) src) as [|x [|y [|z t]]]; try discriminate H.
+  exists x, y. split; [symmetry; exact Hs|].
+  change (str ",A") with [44; 65] in H. cbn [upper_ascii map] in H.
+  injection H as Hx Hy. unfold upper_char in Hx, Hy.
+  destruct ((97 <=? x) && (x <=? 122)) eqn:Ex; destruct ((97 <=? y) && (y <=? 122)) eqn:Ey; lia.
+Qed.
+
+Lemma existsb_skipn_prefix (f : Z -> bool) n a b :
+  existsb f (skipn n (a ++ b)) = false -> existsb f (skipn n a) = false.
+Proof.
+  rewrite skipn_app, existsb_app. intros H. apply orb_false_iff in H. apply H.
+Qed.
 
 (* TOP: what split_source hands to processor_of never has a dot in the extension, and the three
    fields are upper-case images of parts of the base name *)
 Theorem split_source_ext_no_dot : forall src : list Z,
   let '(name, ext, ext_opt, clean) := split_source src in existsb (Z.eqb 46) ext = false.
-Admitted.
+Proof.
+  intros src. unfold split_source.
+  destruct (rfind_char 46 (basename src)) as [dot|] eqn:Hd; [|reflexivity].
+  rewrite existsb_upper. apply rfind_char_spec in Hd. destruct Hd as [_ Hd].
+  destruct (zeqb_list (upper_ascii (last_n 2 src)) (str ",A")) eqn:E; [|exact Hd].
+  destruct (ends_commaA _ E) as (x & y & Hs & Hx & Hy).
+  remember (drop_last 2 src) as p eqn:Hp. clear Hp. subst src.
+  rewrite basename_snoc2 in Hd by assumption.
+  eapply existsb_skipn_prefix. exact Hd.
+Qed.
+
+(* the extension-with-option has no dot either *)
+Lemma split_source_ext_opt_no_dot : forall src : list Z,
+  let '(name, ext, ext_opt, clean) := split_source src in existsb (Z.eqb 46) ext_opt = false.
+Proof.
+  intros src. unfold split_source.
+  destruct (rfind_char 46 (basename src)) as [dot|] eqn:Hd; [|reflexivity].
+  rewrite existsb_upper. apply rfind_char_spec in Hd. apply Hd.
+Qed.
+
+(* hence the README table holds for everything split_source hands to processor_of *)
+Theorem split_source_processors_match : forall src : list Z,
+  let '(name, ext, ext_opt, clean) := split_source src in
+  let '(forced, kind, dtype) := processor_of name ext ext_opt in
+  let '(ext_doc, kind_doc, flag_doc) := doc_disk_kind name ext ext_opt in
+  kind = kind_doc /\ data_to_byte dtype = flag_doc /\ (dtype = 0 \/ dtype = 1) /\ 0 <= kind < 4 /\
+  match forced with Some x => x | None => ext end = ext_doc.
+Proof.
+  intros src.
+  pose proof (split_source_ext_no_dot src) as H1.
+  pose proof (split_source_ext_opt_no_dot src) as H2.
+  destruct (split_source src) as [[[name ext] ext_opt] clean].
+  apply processors_match_documentation_nodot; assumption.
+Qed.
+
+Print Assumptions processors_match_documentation_nodot.
+Print Assumptions processors_match_documentation_counterexample.
+Print Assumptions split_source_ext_no_dot.
+Print Assumptions split_source_ext_opt_no_dot.
+Print Assumptions split_source_processors_match.
